@@ -216,6 +216,7 @@ type TFact struct {
 	Obj      *SymObj
 	Methods  map[string]Value
 	ArrayLen *Hole
+	TypeText string // a type given by its text (custom types.Type implementations)
 }
 
 // SymVar is a *types.Var (struct field, parameter, result).
